@@ -386,6 +386,12 @@ def check(run):
             T = random_transform(rng, sum(s.size for s in specs))
             for fname in (names if not quick else rng.sample(names, 3)):
                 transform_case(run, specs, fname, env, T)
+            # a genuinely complex transformation (complex orbitals): still T applied to every basis index, without conjugation
+            Tc = T + 1j * random_transform(rng, T.shape[1], rect=False)[: T.shape[0]] if T.shape[0] <= T.shape[1] else None
+            if Tc is not None:
+                for fname in (names if not quick else ["momentum", "angular_momentum", "overlap"] + rng.sample(names, 1)):
+                    transform_case(run, specs, fname, env, Tc)
+                run.count("complex transformation")
             if n == 2:
                 from checks.common import near_identity_transforms
                 for lab, Tn in near_identity_transforms(rng, sum(s.size for s in specs)):
@@ -439,10 +445,19 @@ def check(run):
             env = pf.default_env(rng, [spec, other])
             for fname in rng.sample(names, 2 if quick else 5):
                 convention_case(run, spec, [other], fname, env, None, pat)
+    # a pure s shell that declares the phase "-c0" (l = 0 has one component, but it has a sign)
+    cs = []
+    for k_ in range(2 if quick else 6):
+        s0 = rand_shell(rng, 0, cs, sph=True, nseg=1 + k_ % 2, exp_hi=20.0).copy(via_update=False)
+        other0 = rand_shell(rng, 1 + k_ % 2, cs, nseg=1, sph=bool(k_ % 2), exp_hi=20.0)
+        env0 = pf.default_env(rng, [s0, other0])
+        for fname in (names if not quick else rng.sample(names, 4)):
+            convention_case(run, s0, [other0], fname, env0, None, ["-c0"])
     for k_ in range(3 if quick else 12):
         iodata_case(run, rng)
         iodata_case(run, rng, omit=True)
     container_case(run, rng)
+    positional_arguments_case(run, rng)
     single_string_types_case(run, rng)
     for k_ in range(3 if quick else 12):
         interaction_case(run, rng, k_)
@@ -577,6 +592,72 @@ def single_string_types_case(run, rng):
     return ok
 
 
+def positional_arguments_case(run, rng, only=None):
+    """every public function called with its optional arguments by position, in the published order (GBModel/Signatures.lean), against
+    the same call with keywords; `only`: restrict to functions whose name contains one of the given strings"""
+    from gbasis.evals import density as Dn
+    from gbasis.evals import stress_tensor as ST
+    from gbasis.evals.eval import evaluate_basis
+    from gbasis.evals.eval_deriv import evaluate_deriv_basis
+    from gbasis.evals.electrostatic_potential import electrostatic_potential
+    from gbasis.integrals.electron_repulsion import electron_repulsion_integral
+    from gbasis.integrals.moment import moment_integral
+    from gbasis.integrals.overlap import overlap_integral
+    from gbasis.integrals.point_charge import point_charge_integral
+    specs = [rand_shell(rng, l, [], nprim=1 + l % 2, nseg=1, sph=bool(l % 2), exp_lo=0.3, exp_hi=5.0).copy(
+        center=[0.5 * l - 0.4, 0.3 * l, -0.2 * l + 0.1], via_update=False) for l in (0, 1)]
+    basis = make_basis(specs)
+    n = sum(s_.size for s_ in specs)
+    T = random_transform(rng, n, rect=True)
+    m = T.shape[0]
+    g = random_symmetric(rng, m, psd=True)
+    gneg = -1e-12 * (g + np.eye(m))         # tiny negative values: clipped under the default-size threshold, whatever the back-end
+    pts = np.array([[0.3, -0.2, 0.5], [1.0, 0.4, -0.6]])
+    nuc, Z = np.array([[0.3, -0.2, 0.5], [2.0, 0.0, 1.0]]), np.array([1.0, 3.0])
+    o = np.array([1, 0, 1])
+    table = [
+        ("evaluate_density", Dn.evaluate_density, (g, basis, pts), ("transform", "threshold"), (T, 1e-6)),
+        ("evaluate_density (clipping)", Dn.evaluate_density, (gneg, basis, pts), ("transform", "threshold"), (T, 1e-6)),
+        ("evaluate_deriv_density", Dn.evaluate_deriv_density, (o, g, basis, pts), ("transform", "deriv_type"), (T, "direct")),
+        ("evaluate_density_gradient", Dn.evaluate_density_gradient, (g, basis, pts), ("transform", "deriv_type"), (T, "direct")),
+        ("evaluate_density_laplacian", Dn.evaluate_density_laplacian, (g, basis, pts), ("transform", "deriv_type"), (T, "direct")),
+        ("evaluate_density_hessian", Dn.evaluate_density_hessian, (g, basis, pts), ("transform", "deriv_type"), (T, "direct")),
+        ("evaluate_posdef_kinetic_energy_density", Dn.evaluate_posdef_kinetic_energy_density, (g, basis, pts), ("transform", "deriv_type", "threshold"), (T, "direct", 1e-6)),
+        ("evaluate_posdef_kinetic_energy_density (clipping)", Dn.evaluate_posdef_kinetic_energy_density, (gneg, basis, pts), ("transform", "deriv_type", "threshold"), (T, "direct", 1e-6)),
+        ("evaluate_posdef_kinetic_energy_density (back-end only)", Dn.evaluate_posdef_kinetic_energy_density, (gneg, basis, pts), ("transform", "deriv_type"), (T, "direct")),
+        ("evaluate_general_kinetic_energy_density", Dn.evaluate_general_kinetic_energy_density, (g, basis, pts, 0.5), ("transform", "deriv_type"), (T, "direct")),
+        ("evaluate_stress_tensor", ST.evaluate_stress_tensor, (g, basis, pts), ("alpha", "beta", "transform"), (0.5, 1.5, T)),
+        ("evaluate_ehrenfest_force", ST.evaluate_ehrenfest_force, (g, basis, pts), ("alpha", "beta", "transform"), (0.5, 1.5, T)),
+        ("evaluate_ehrenfest_hessian", ST.evaluate_ehrenfest_hessian, (g, basis, pts), ("alpha", "beta", "transform", "symmetric"), (0.5, 1.5, T, True)),
+        ("evaluate_basis", evaluate_basis, (basis, pts), ("transform",), (T,)),
+        ("evaluate_deriv_basis", evaluate_deriv_basis, (basis, pts, o), ("transform", "deriv_type"), (T, "direct")),
+        ("electrostatic_potential", electrostatic_potential, (basis, g, pts, nuc, Z), ("transform", "threshold_dist"), (T, 0.25)),
+        ("overlap_integral", overlap_integral, (basis,), ("transform", "tol_screen"), (T, 1e-3)),
+        ("moment_integral", moment_integral, (basis, np.array([0.1, 0.2, -0.3]), np.array([[1, 0, 0], [0, 2, 0]])), ("transform",), (T,)),
+        ("point_charge_integral", point_charge_integral, (basis, nuc, Z), ("transform",), (T,)),
+        ("electron_repulsion_integral", electron_repulsion_integral, (basis,), ("transform", "notation"), (T, "chemist")),
+    ]
+    ok = True
+    for name, f, req, kws, vals in table:
+        if only is not None and not any(x in name for x in only):
+            continue
+        run.case(("positional", name))
+        run.count("optional arguments passed by position")
+        want = f(*req, **dict(zip(kws, vals)))
+        try:
+            got = f(*req, *vals)
+        except Exception as e:
+            run.violation(f"{name}{tuple(['...'] * len(req)) + tuple(kws)}: the call with the optional arguments by position in the published order "
+                          f"raised {type(e).__name__}: {e}", {"case": "positional", "function": name, "signature": {"kind": "positional-arguments"}})
+            ok = False
+            continue
+        if np.shape(got) != np.shape(want) or not np.array_equal(got, want):
+            run.violation(f"{name}: optional arguments passed by position ({', '.join(kws)}) give another result than the same values by keyword",
+                          {"case": "positional", "function": name, "signature": {"kind": "positional-arguments"}})
+            ok = False
+    return ok
+
+
 def container_case(run, rng):
     """the basis given as a tuple instead of a list (both are documented), for every public function incl. the density-type ones"""
     from gbasis.evals import density as Dn
@@ -672,6 +753,9 @@ def iodata_case(run, rng, lmax=3, omit=False):
 
 def replay(run, rep):
     n0 = len(run.violations)
+    if rep["case"] == "positional":
+        positional_arguments_case(run, run.rng)
+        return len(run.violations) == n0
     if rep["case"] == "single-string-types":
         single_string_types_case(run, run.rng)
         return len(run.violations) == n0
